@@ -1,12 +1,45 @@
 # Development configuration of the JSON/map-form part of C01 (`./check C01B`); merged into checks/c01.py.
+import os, sys
+sys.path.insert(0, os.path.dirname(os.path.dirname(os.path.abspath(__file__))))
+import checklib
+
+
+def regen(ctx):
+    """Regenerates lean/Hive/Gen/C01b_Facts.lean (namespace Hive.Gen.C01bFacts) from the working tree: normalised statement
+    lists of every function of map_encode.go / map_decode.go / numbers.go / utils.go / the JSON entry points of serix.go /
+    serializer.TimeToUint64, the reflect.Kind tables and the member-name constants.  Hive/Props/C01b.lean compares them with
+    the frozen copy the model was written against (Hive/Spec/SerixJsonSource.lean): C01_json_source_* / _kinds_* / _const_*."""
+    out = os.path.join(checklib.LEAN, "Hive", "Gen", "C01b_Facts.lean")
+    tmp = os.path.join(ctx.scratch, "C01b_Facts.lean")
+    if os.path.exists(tmp):
+        os.remove(tmp)
+    rc, log = checklib.sh(["go", "run", "./c01b/extract", ctx.repo, tmp], cwd=checklib.HARNESS, timeout=600)
+    if rc != 0 or not os.path.exists(tmp):
+        return [{"kind": "c01b-fact-extractor", "detail": checklib.tail(log, 20)}]
+    checklib.write_gen(ctx, out, open(tmp).read())
+    return []
+
+
+SOURCE_OBLIGATIONS = [
+    "C01_json_const_keyType", "C01_json_const_keyDefaultSliceArray", "C01_json_const_MaxNanoTimestampInt64Seconds",
+    "C01_json_kinds_mapEncodeBasedOnType", "C01_json_kinds_mapDecodeBasedOnType",
+] + ["C01_json_source_" + f for f in (
+    "mapEncode mapEncodeBasedOnType mapEncodeInterface mapEncodeStruct mapEncodeStructFields mapEncodeSlice mapEncodeMapKVPair "
+    "mapEncodeMap isValueEmpty mapDecode mapDecodeBasedOnType float64NumParser strNumParser mapDecodeNum mapDecodeFloat "
+    "mapDecodeInterface mapDecodeStruct mapDecodeStructFields mapDecodeSlice mapDecodeBytes mapDecodeArray mapDecodeMap "
+    "EncodeHex DecodeHex EncodeUint256 DecodeUint256 sliceFromArray fillArrayFromSlice FieldKeyString JSONEncode MapEncode "
+    "JSONDecode MapDecode TimeToUint64").split()]
+
 SPEC = {
+    "regen": regen,
     "theorem_prefix": "C01",
     "lean_props": "Hive.Props.C01b",
     "lean_namespace": "Hive.SerixJson",
     "driver": "drv_c01b",
     "harness": "c01b",
     "theorems": ["C01_json_roundtrip", "C01_json_roundtrip_canon", "C01_json_canon_id", "C01_json_api_roundtrip", "C01_json_map_any_iteration_order",
-                 "C01_json_key_order_irrelevant", "C01_json_key_order_by_lookup", "C01_json_map_member_order"],
+                 "C01_json_key_order_irrelevant", "C01_json_key_order_by_lookup", "C01_json_map_member_order",
+                 "C01_json_model_type_member", "C01_json_model_time_saturation"] + SOURCE_OBLIGATIONS,
     "trusted_base": [
         "hand-written model Hive/Model/SerixJson.lean (+SerixJsonText) of serializer/serix/map_encode.go and map_decode.go, tied by "
         "differential execution over random schemas realised with reflect (harness/c01b)",
